@@ -1,18 +1,30 @@
 import Log4rsModel.Pattern.WritersLemmas3
+import Log4rsModel.Pattern.WritersErrLemmas
+import Log4rsModel.Pattern.WidthSpecLemmas
 /-
 C10 — Width/fill/alignment count characters, truncate then pad, never split UTF-8.
 
-Only the property theorems and non-vacuity examples live here. Definitions: `Base/Bytes.lean`
-(UTF-8, lead bytes), `Pattern/Format.lean` (`specFmt` = the statement's law, `codeFmtOps` = what the
-writer stack does to an operation stream), `Pattern/Writers.lean` (byte-level model of
-`MaxWidthWriter`, `LeftAlignWriter`, `RightAlignWriter`, `write_all`, `Chunk::encode`; pattern
-trees). Helper lemmas: `Pattern/WritersLemmas{,2,3}.lean`.
+Only the property theorems and non-vacuity examples live here (the bridge to the C09/C11 chunk
+table is `Properties/C10Bridge.lean`). Definitions:
+* `Base/Bytes.lean` — UTF-8 (`utf8Char` = Lean core's encoder, `C10_utf8_is_core`), lead bytes;
+* `Pattern/Format.lean` — `specFmt` = the statement's law, `codeFmtOps` = what the writer stack does
+  to an operation stream;
+* `Pattern/Writers.lean` — error-free byte-level model of `MaxWidthWriter`, `LeftAlignWriter`,
+  `RightAlignWriter`, `write_all`, `Chunk::encode`; pattern trees `Node` (incl. `{D(..)}`/`{R(..)}`);
+* `Pattern/WritersErr.lean` — the same code with every failure path (sink `Err` / `Interrupted`,
+  failing `set_style`, `?` skipping `finish`, std's panic on a failing `Display`);
+* `Pattern/WidthSpec.lean` — `specOrCode` (hypothesis-free tree law) and `matchNodes` (the driver's
+  executable Spec: what the statement alone allows).
+Helper lemmas: `Pattern/WritersLemmas{,2,3}.lean`, `WritersErrLemmas.lean`, `WidthSpecLemmas.lean`.
 
-Hypothesis forced by the code and visible in every statement below: what arrives at a writer is a
-sequence of whole `str`s (`Piece.data (cs : List Char)`, written as `utf8 cs`) — Rust's
-`fmt::Write::write_str` / `write_all(s.as_bytes())` cannot split inside a character. Short writes
-of the DOWNSTREAM are arbitrary: every theorem quantifies over the sink's acceptance oracle `orc`.
-`C10_split_inside_char_leaks` shows the hypothesis is needed.
+Hypotheses that are ASSUMED, not discharged (also listed in props.d/C10.json):
+* what a formatter hands to a writer is a sequence of whole `str`s (`Piece.data (cs : List Char)`,
+  written as `utf8 cs`) — Rust's `fmt::Write::write_str` / `write_all(s.as_bytes())` cannot split
+  inside a character; by code reading of every `FormattedChunk` variant. `C10_split_inside_char_leaks`
+  shows the hypothesis is needed. Short writes of the DOWNSTREAM are arbitrary (every theorem
+  quantifies over the sink's acceptance oracle, and `C10_maxW_write_all` over arbitrary buffers).
+* the error-free theorems (`orc : List Nat`) range over sinks that never fail — by construction of
+  `accept`; failing sinks are the `C10_err_*` theorems (`orc : List Acc`, any schedule).
 -/
 namespace Log4rs.Pattern
 open Log4rs
@@ -33,7 +45,10 @@ theorem C10_no_underflow (r : Nat) (b : Bytes) (n : Nat) :
     leads ((b.take (scanEnd r b).1).take n) ≤ r := by
   rw [scanEnd_eq]; simp only [cut_prefix]; exact maxW_no_underflow r b n
 
-/-- every layer reports progress on a non-empty buffer, so std's `write_all` never sees `Ok(0)` -/
+/-- every layer reports progress on a non-empty buffer, so std's `write_all` never sees `Ok(0)`.
+For the bottom writer this holds BY CONSTRUCTION of the error-free sink (`accept` answers 1..len);
+it is the layers above it the theorem is about. Failing answers are the subject of the
+`C10_err_*` theorems (model `WritersErr.lean`). -/
 theorem C10_write_progress (w : W) (b : Bytes) (hb : b ≠ []) :
     1 ≤ (w.write b).2 ∧ (w.write b).2 ≤ b.length := write_progress w b hb
 
@@ -229,6 +244,146 @@ theorem C10_inactive_group_padded (p : Params) (cs : List Node) (orc : List Nat)
     unfold specFmt
     cases hM : p.maxW <;> cases hr : p.right <;> simp [hm, fills]
 
+/-! ### hypothesis-free tree law, per-node law, byte-level bound -/
+
+/-- The law for ONE node, whatever its children are (their specs may be outside the statement):
+if this node's own spec has m ≤ M, its text is `specFmt` of its children's text. -/
+theorem C10_node_law (p : Params) (cs : List Node) (h : p.ordered = true) :
+    (denote (.fmt p cs)).text = specFmt p (denotes cs).text := by
+  rw [denote]; exact codeFmtOps_text_eq_spec p _ h
+
+/-- Hypothesis-free: for EVERY forest (any mix of specs inside and outside the statement) and every
+oracle the bytes are the UTF-8 of `specOrCodes forest` — at each node the statement's law when its
+spec has m ≤ M, the code's documented pad-then-cut otherwise. One m > M node does not void the law
+for its siblings or ancestors. -/
+theorem C10_bytes_eq_specOrCode (forest : List Node) (orc : List Nat) :
+    bytesOf (encodeNodes forest (W.sink orc [])).emitted = utf8 (specOrCodes forest) := by
+  rw [C10_writers_refine_tree, List.nil_append, bytesOf_render, denotes_text_specOrCode]
+
+/-- `specOrCode` is the statement's law wherever the statement applies. -/
+theorem C10_specOrCode_eq_spec (forest : List Node) (h : Node.orderedAll forest = true) :
+    specOrCodes forest = specTexts forest := by
+  rw [← denotes_text_specOrCode, C10_nested forest h]
+
+/-- "In every case at most M characters", at byte level and at any top-level position: the bytes
+of a forest are the bytes of what precedes, then the encoding of at most M characters for the
+node with maximum width M, then the bytes of what follows — no hypothesis on m, on the children
+or on the neighbours. -/
+theorem C10_at_most_M_bytes (pre post : List Node) (p : Params) (cs : List Node) (orc : List Nat)
+    (M : Nat) (hM : p.maxW = some M) :
+    ∃ t : List Char, t.length ≤ M ∧
+      bytesOf (encodeNodes (pre ++ [Node.fmt p cs] ++ post) (W.sink orc [])).emitted =
+        utf8 (denotes pre).text ++ utf8 t ++ utf8 (denotes post).text := by
+  refine ⟨(denote (.fmt p cs)).text, ?_, ?_⟩
+  · rw [denote]; exact C10_at_most_M p _ M hM
+  · rw [C10_writers_refine_tree, List.nil_append, bytesOf_render, denotes_append, denotes_append,
+      denotes_singleton, text_append, text_append, utf8_append, utf8_append]
+
+/-- The executable Spec of the driver (`matchNodes`: what the STATEMENT alone allows — exact
+`specText` for subtrees inside the statement, transparent plain groups, a length window ≤ M / ≥ m
+for anything containing an m > M spec) accepts the model's output for every forest: the verdict
+cannot raise a false alarm on behaviour the model has. -/
+theorem C10_spec_accepts_model (forest : List Node) :
+    matchNodes forest (denotes forest).text = true := matchNodes_denotes forest
+
+/-- `MaxWidthWriter` on piece streams over ANY writer and with any earlier output (the general form
+of `C10_maxW_stream`). -/
+theorem C10_maxW_feed_any_writer (ps : List Piece) (r : Nat) (w : W) :
+    (W.maxW r w).feed ps = W.maxW (r - chars ps) (w.feed (truncPieces r ps)) ∧
+    opsOf (truncPieces r ps) = truncOps r (opsOf ps) :=
+  ⟨feed_maxW ps r w, opsOf_truncPieces r ps⟩
+
+/-- "Valid UTF-8" does not rest on a hand-written encoder: `utf8Char` is Lean core's
+`String.utf8EncodeChar` for every scalar value, and `utf8 cs` is the byte content of the Lean
+string with the characters `cs`. -/
+theorem C10_utf8_is_core (c : Char) (cs : List Char) :
+    (String.utf8EncodeChar c).map UInt8.toNat = utf8Char c ∧
+    (String.ofList cs).toUTF8.data.toList.map UInt8.toNat = utf8 cs :=
+  ⟨utf8Char_core c, utf8_core cs⟩
+
+/-! ### failing runs: the bottom writer returns `Err`, `set_style` fails, a `Display` fails
+
+`WritersErr.lean` models every error path of the writer stack (`Err(e) => Err(e)`, `?` skipping
+`finish`, `Interrupted` retried by `write_all`, std's panic on a failing `Display`). The theorems
+below quantify over ALL failure schedules: any script of accept / fail / interrupt answers, any
+`set_style` budget, any position of a failing `Display` piece. -/
+
+/-- Whatever fails and whenever: if the encode goes through, the bottom writer holds exactly the
+rendering of the forest (failed-`Display` markers that were never reached are irrelevant); if it
+stops — I/O error or panic —, what the bottom writer holds is a PREFIX of that rendering. Nothing
+out of order, nothing extra (no padding for text that was lost, no partial right-aligned text). -/
+theorem C10_err_prefix (forest : List NodeE) (orc : List Acc) (sb : Option Nat) :
+    match encodeNodesE forest (WE.sink orc sb []) with
+    | .ok w' => w'.emitted = render (denotes (NodeE.eraseAll forest))
+    | .stop _ o => o <+: render (denotes (NodeE.eraseAll forest)) := by
+  have h := encodeNodes_ref forest (WE.sink orc sb [])
+  have hI := emitted_encodeNodes (NodeE.eraseAll forest) (takes orc) []
+  rw [List.nil_append] at hI
+  generalize encodeNodesE forest (WE.sink orc sb []) = res at h
+  cases res with
+  | ok w' =>
+    simp only [Ref, WE.erase] at h ⊢
+    rw [← emitted_erase, h, hI]
+  | stop y o =>
+    simp only [Ref, WE.erase] at h ⊢
+    rw [← hI]; exact h.2
+
+/-- On a failing run the bytes are a prefix of the UTF-8 of the forest's text — of the statement's
+law `specTexts` when every spec has m ≤ M —; they consist of complete characters of that text plus
+at most one incomplete last character (a byte sink may fail in the middle of a character: that is
+the downstream's cut, never the encoder's); and the number of characters started is at most M for
+a root with maximum width M. -/
+theorem C10_err_bytes (forest : List NodeE) (orc : List Acc) (sb : Option Nat) (y : Stop)
+    (o : List BEv) (hstop : encodeNodesE forest (WE.sink orc sb []) = .stop y o) :
+    bytesOf o <+: utf8 (specOrCodes (NodeE.eraseAll forest)) ∧
+    (Node.orderedAll (NodeE.eraseAll forest) = true →
+      bytesOf o <+: utf8 (specTexts (NodeE.eraseAll forest))) ∧
+    (∃ k tail, bytesOf o = utf8 ((specOrCodes (NodeE.eraseAll forest)).take k) ++ tail ∧
+      (tail = [] ∨ ∃ c, (specOrCodes (NodeE.eraseAll forest))[k]? = some c ∧
+        tail <+: utf8Char c ∧ tail.length < (utf8Char c).length)) ∧
+    (∀ p cs M, NodeE.eraseAll forest = [Node.fmt p cs] → p.maxW = some M → leads (bytesOf o) ≤ M) := by
+  have h := C10_err_prefix forest orc sb
+  rw [hstop] at h
+  simp only at h
+  have hb : bytesOf o <+: utf8 (specOrCodes (NodeE.eraseAll forest)) := by
+    have := bytesOf_prefix h
+    rwa [bytesOf_render, denotes_text_specOrCode] at this
+  refine ⟨hb, ?_, prefix_utf8_decomp _ _ hb, ?_⟩
+  · intro ho; rw [← C10_specOrCode_eq_spec _ ho]; exact hb
+  · intro p cs M hf hM
+    have h1 := leads_prefix_le hb
+    rw [leads_utf8, ← denotes_text_specOrCode, hf, denotes_singleton, denote] at h1
+    exact Nat.le_trans h1 (C10_at_most_M p _ M hM)
+
+/-- The error-aware model extends the error-free one: whenever an error-aware encode goes through
+(`Interrupted` answers included), its final state is, up to the unused failure schedule, the final
+state of the error-free model on the same accept answers. -/
+theorem C10_err_model_extends (forest : List NodeE) (orc : List Acc) (sb : Option Nat)
+    (out : List BEv) (w' : WE) (h : encodeNodesE forest (WE.sink orc sb out) = .ok w') :
+    w'.erase = encodeNodes (NodeE.eraseAll forest) (W.sink (takes orc) out) := by
+  have := encodeNodes_ref forest (WE.sink orc sb out)
+  rw [h] at this
+  exact this
+
+/-- The error-aware model is not vacuous: when no failing answer is scripted (interruptions are
+allowed), `set_style` never fails and no `Display` fails, the encode goes through and the bottom
+writer holds the complete rendering. -/
+theorem C10_err_free_run_goes_through (forest : List Node) (orc : List Acc)
+    (h : orc.contains Acc.fail = false) :
+    ∃ w', encodeNodesE (Node.liftAll forest) (WE.sink orc none []) = .ok w' ∧
+      w'.emitted = render (denotes forest) := by
+  have hc : (WE.sink orc none []).clean = true := by
+    simp only [WE.clean, h]; rfl
+  have hok := encodeNodes_clean forest _ hc
+  have hp := C10_err_prefix (Node.liftAll forest) orc none
+  generalize encodeNodesE (Node.liftAll forest) (WE.sink orc none []) = res at hok hp
+  cases res with
+  | ok w' =>
+    refine ⟨w', rfl, ?_⟩
+    simp only at hp
+    rw [hp, eraseAll_liftAll]
+  | stop y o => exact hok.elim
+
 /-! ### non-vacuity (TESTS on concrete inputs, by evaluation) -/
 
 /-- a 3-byte character sits exactly at the width boundary and is dropped whole; the sink accepts
@@ -263,6 +418,21 @@ example :
     bytesOf (encodeNodes (br (Node.debugGroup true spec body)) (W.sink [1, 2] [])).emitted =
       utf8 ['[', 'I', 'N', 'F', 'O', ' ', 'x', ']'] ∧
     Node.orderedAll (br (Node.releaseGroup true spec body)) = true := by
+  decide
+
+/-- failing runs, evaluated: `{m:~>6}` on "ab" + failing `Display` panics with NOTHING written (the
+buffered text is dropped); `{m:~<6}` on "abc" with the sink failing at its third call leaves "ab"
+and no padding; an `Interrupted` answer is retried and changes nothing -/
+example :
+    let r : Params := { fill := '~', right := true, minW := some 6 }
+    let l : Params := { fill := '~', right := false, minW := some 6 }
+    let ob (x : Res) : Option Stop × Bytes := (x.observe.1, bytesOf x.observe.2)
+    ob (encodeNodesE [.fmt r [.leaf [some (.data ['a', 'b']), none]]] (WE.sink [] none [])) =
+      (some Stop.fmtPanic, []) ∧
+    ob (encodeNodesE [.fmt l [.leaf [some (.data ['a', 'b', 'c'])]]]
+        (WE.sink [.take 1, .intr, .take 1, .fail] none [])) = (some Stop.ioErr, [0x61, 0x62]) ∧
+    ob (encodeNodesE [.fmt l [.leaf [some (.data ['a'])]]] (WE.sink [.intr, .intr] none [])) =
+      (none, [0x61, 0x7E, 0x7E, 0x7E, 0x7E, 0x7E]) := by
   decide
 
 end Log4rs.Pattern
